@@ -333,16 +333,31 @@ static void cx_register_customs(int n)
  * (quotes or backslashes: the quoting grammar of words is C12's subject, not this model's) */
 static int cx_simple_words(const char *s, char w[][128], int maxw)
 {
+    /* words of a built-in's argument text: unquoted words of ordinary characters, or a double-quoted word of ordinary
+     * characters and blanks (possibly empty) that runs to the matching quote and is followed by a blank or the end.
+     * Anything else (single quotes, backslashes, a quote inside a word) is outside the strong sub-language: -1. */
     int n = 0;
     for (const char *p = s; *p;) {
         while (*p && isspace((unsigned char) *p)) p++;
         if (!*p) break;
         size_t k = 0;
-        while (*p && !isspace((unsigned char) *p)) {
-            if (*p == '"' || *p == '\'' || *p == '\\') return -1;
-            if (k + 1 < 128 && n < maxw) w[n][k++] = *p;
-            else if (k + 1 >= 128) return -1;
+        if (*p == '"') {
             p++;
+            while (*p && *p != '"') {
+                if (*p == '\'' || *p == '\\') return -1;
+                if (k + 1 < 128 && n < maxw) w[n][k++] = *p; else if (k + 1 >= 128) return -1;
+                p++;
+            }
+            if (*p != '"') return -1;
+            p++;
+            if (*p && !isspace((unsigned char) *p)) return -1;
+        } else {
+            while (*p && !isspace((unsigned char) *p)) {
+                if (*p == '"' || *p == '\'' || *p == '\\') return -1;
+                if (k + 1 < 128 && n < maxw) w[n][k++] = *p;
+                else if (k + 1 >= 128) return -1;
+                p++;
+            }
         }
         if (n < maxw) w[n][k] = 0;
         n++;
@@ -458,8 +473,14 @@ static void cx_ref_expand(cx_model *m, const char *in, cx_buf *out, int depth)
                 else if (!strcmp(nm, "appname")) { size_t L = strlen((char *) libast_program_name) + strlen((char *) libast_program_version) + 2; res = malloc(L); snprintf(res, L, "%s-%s", libast_program_name, libast_program_version); }
                 else if (!strcmp(nm, "get")) {
                     nw = cx_simple_words(args.b, w, 3);
-                    if (nw != 1) cx_weak(m, "get with other than one simple word");
-                    else { if (m->store_tainted) cx_weak(m, "store tainted"); const char *v = cx_model_get(m, w[0]); if (v) res = strdup(v); else m->feat |= CXF_GET_MISS; m->feat |= CXF_GET; }
+                    if (nw != 1 && nw != 2) cx_weak(m, "get with other than one or two simple words");
+                    else {
+                        /* %get(name [default]): the stored value (even an empty one), else the default word if one was given */
+                        if (m->store_tainted) cx_weak(m, "store tainted");
+                        const char *v = cx_model_get(m, w[0]);
+                        if (v) res = strdup(v); else { m->feat |= CXF_GET_MISS; if (nw == 2) res = strdup(w[1]); }
+                        m->feat |= CXF_GET;
+                    }
                 } else if (!strcmp(nm, "put")) {
                     nw = cx_simple_words(args.b, w, 3);
                     if (nw != 2) { cx_weak(m, "put with other than two simple words"); m->store_tainted = 1; }
@@ -677,6 +698,7 @@ static void cx_model_file(cx_lmodel *lm, const cx_file *f, int fdepth)
     const char *p = f->data.b, *end = f->data.b + f->data.n;
     if (fdepth > lm->max_fdepth) lm->max_fdepth = fdepth;
     if (fdepth > 250) { cx_lm_weak(lm, "include depth beyond the 8-bit file index"); return; }
+    if (f->data.n == 0 && fdepth > 0) { vh_count("empty_included_files", 1); return; }     /* a zero-length included file has no lines: nothing is delivered, and it must be closed again */
     if (lm->n_open < 300) lm->open_files[lm->n_open] = f;
     lm->n_open++;
     /* first line: magic, consumed by the opener */
@@ -929,6 +951,7 @@ static void cx_gen_include(cx_file *f, int level)
     if (!inc) return;
     snprintf(line, sizeof line, "%%include %s", name);
     cx_gen_line(f, line);
+    if (cx_g.cycles && vh_coin(12)) return;          /* leave the included file zero-length */
     cx_gen_file(inc, level + 1);
 }
 static cx_file *cx_gen_anc[16];        /* files being generated, by include level */
